@@ -11,7 +11,7 @@ its observable outcome is determined by the spec in the current state:
 Model.apply is also what the minimiser uses to re-validate reduced scripts (it rewrites the pc flag).
 
 Pure function of (seed, tier, batch, avoid): no hash(), no set iteration, no time.
-CLI:  c05_slices.py <seed> <first_script_id> <count> [avoid,avoid]   -> script text on stdout."""
+CLI:  c05_slices.py <seed> <first_script_id> <count> [avoid,avoid] | <seed> ids <id,id,..> [avoid,..]  -> script text on stdout."""
 import random
 import sys
 
@@ -296,8 +296,9 @@ class Model:
             ov = ""
             if n and x is not None and y is not None and x.alloc == y.alloc and ESZ[ty]:
                 dlo = x.off + x.len
-                if self.cls == "fits" and dlo < y.off + n and y.off < dlo + n and dlo != y.off:
-                    ov = ":overlap-fwd" if dlo < y.off else ":overlap-bwd"
+                if self.cls in ("fits", "grow?") and dlo < y.off + n and y.off < dlo + n and dlo != y.off:
+                    # "grow?": whether it happens in place is up to the implementation, so it may overlap
+                    ov = (":overlap-fwd" if dlo < y.off else ":overlap-bwd") + ("?" if self.cls == "grow?" else "")
                 elif sa == sb:
                     ov = ":self"
             if "overlap" in ov and "overlap-append" in self.avoid:
@@ -1124,19 +1125,24 @@ class Gen:
         return ["0 %d" % sid] + self.lines
 
 
-def gen_scripts(seed, first, count, avoid=()):
+def gen_scripts(seed, first, count, avoid=(), ids=None):
     """list of scripts (each a list of lines, first line '0 <id>'); script i depends only on (seed, id, avoid)"""
     out = []
-    for sid in range(first, first + count):
+    for sid in (ids if ids is not None else range(first, first + count)):
         rng = random.Random(seed * 1000003 + sid * 7919 + 17)
         out.append(Gen(rng, avoid).script(sid))
     return out
 
 
 if __name__ == "__main__":
-    seed, first, count = int(sys.argv[1]), int(sys.argv[2]), int(sys.argv[3])
+    # c05_slices.py <seed> <first> <count> [avoid,...]   or   c05_slices.py <seed> ids <id,id,...> [avoid,...]
+    seed = int(sys.argv[1])
     avoid = tuple(x for x in (sys.argv[4].split(",") if len(sys.argv) > 4 else []) if x)
+    if sys.argv[2] == "ids":
+        scs = gen_scripts(seed, 0, 0, avoid, ids=[int(x) for x in sys.argv[3].split(",") if x])
+    else:
+        scs = gen_scripts(seed, int(sys.argv[2]), int(sys.argv[3]), avoid)
     w = sys.stdout.write
-    for sc in gen_scripts(seed, first, count, avoid):
+    for sc in scs:
         w("\n".join(sc))
         w("\n")
